@@ -44,6 +44,8 @@ def run(prop, tier, seed, scratch, replay=None):
     rep2 = vlib.load_report(report2)
     res.add_report(rep)
     res.add_report(rep2)
+    st = vlib.binding_selftest(scratch, drv, lambda i, o: ["-in", i, "-out", o, "-spec", "chainsync", "-prop", prop, "-seed", seed, "-workers", vlib.NCPU],
+                               traces, ["wconf", "chain"], where=lambda tr: len(tr.get("steps") or []) >= 2)
     res.coverage = {
         "states": bfs["distinct"], "transitions": bfs["generated"],
         "traces_validated_against_impl": rep["traces"] + rep2["traces"],
@@ -62,6 +64,7 @@ def run(prop, tier, seed, scratch, replay=None):
     }
     if cov:
         res.coverage["coverage_run"] = cov
+    res.coverage["binding_selftest"] = st
     res.assumptions = [
         "the backend is the scripted chain.Interface of harness/internal/mockchain (bitcoind notification order, real watch-list semantics)",
         "every state is a quiescent point: the driver drains the wallet's notification goroutine after each backend action",
